@@ -18,6 +18,7 @@ CONFIGS = {
     'O0a':    ['g++', '-std=c++17', '-O0', '-pthread'],
     'O3':     ['g++', '-std=c++17', '-O3', '-DNDEBUG', '-mno-sse4.2', '-mno-bmi2', '-mno-popcnt', '-pthread'],
     'native': ['g++', '-std=c++17', '-O3', '-DNDEBUG', '-march=native', '-pthread'],
+    'sse42':  ['g++', '-std=c++17', '-O2', '-DNDEBUG', '-msse4.2', '-mpopcnt', '-mno-bmi2', '-pthread'],   # hardware popcount, no BMI2
     'clang':  ['clang++', '-std=c++17', '-O2', '-DNDEBUG', '-pthread'],
 }
 
